@@ -24,7 +24,7 @@ CLASSES = {
     "SmoothStronglyConvexFunction": dict(kind="f", params=[{"mu": 0.1, "L": 1.0}, {"mu": 0.5, "L": 2.0}, {"mu": 0.0, "L": 1.0}],
                                          step="gd", metrics=["dist", "fval", "grad"]),
     "ConvexLipschitzFunction": dict(kind="f", params=[{"M": 1.0}, {"M": 2.0}], step="subgrad", metrics=["dist"]),
-    "SmoothConvexLipschitzFunction": dict(kind="f", params=[{"L": 1.0, "M": 1.0}, {"L": 2.0, "M": 0.5}], step="gd",
+    "SmoothConvexLipschitzFunction": dict(kind="f", params=[{"L": 1.0, "M": 1.0}, {"L": 2.0, "M": 0.5}, {"L": 1.0, "M": 3.0}], step="gd",
                                           metrics=["fval", "dist", "grad"]),
     "ConvexQGFunction": dict(kind="f", params=[{"L": 1.0}, {"L": 2.0}], step="gd", metrics=["fval"]),
     "RsiEbFunction": dict(kind="f", params=[{"mu": 0.1, "L": 1.0}, {"mu": 0.5, "L": 1.0}], step="gd_rsi", metrics=["dist"]),
@@ -53,7 +53,7 @@ CLASSES = {
 CLASS_NAMES = list(CLASSES)
 
 EXTRAS = ["named_ineq", "user_eq", "lmi_sym", "lmi_nonsym", "lmi_two", "lmi_unsent", "partition1", "partition2",
-          "fn_constraint", "fn_lmi", "fn_lmi_two", "noise", "const_metric", "two_metrics", "second_function", "dup_eval"]
+          "fn_constraint", "fn_lmi", "fn_lmi_two", "noise", "unused_lmi_class", "const_metric", "two_metrics", "second_function", "dup_eval"]
 
 
 class Ctx(object):
@@ -171,6 +171,10 @@ def build(spec):
             z = f.T.gradient(y)
             g0 = z
             x = z
+        elif step == "lin_A":
+            y = f.gradient(x)            # the adjoint is never evaluated
+            g0 = y
+            x = y
         elif step == "inexact_abs":
             x, d, _ = inexact_gradient_step(x, target, gamma, 0.1, notion="absolute")
             g0 = g0 or d
@@ -306,6 +310,10 @@ def build(spec):
             p.add_constraint(z * x0 == 0)
             p.add_constraint(z * x == 0)
             p.set_performance_metric(m + (x + z) ** 2 - x ** 2)
+        elif ex == "unused_lmi_class":
+            # a class with a class LMI that is declared and never evaluated
+            from PEPit.operators import SymmetricLinearOperator
+            c.funcs["unused"] = p.declare_function(SymmetricLinearOperator, mu=0.0, L=1.0)
         elif ex == "const_metric":
             p.set_performance_metric(m + 0.5)
         elif ex == "two_metrics":
@@ -385,6 +393,8 @@ def enumerate_specs(tier, family="core"):
                     continue          # both define exprs['e_lmi'] / exprs['e_fn']
                 specs.append(dict(base, extras=[e1, e2]))
             specs.append(dict(base, named=True, fname="func", extras=["named_ineq"]))
+    for par in range(1 if quick else 2):
+        specs.append(dict(cls="LinearOperator", par=par, pattern="sf", step="lin_A", metric="grad", init="dist", n=1))
     # composites and alternative steps
     for cls in sorted(SMOOTH | NONSMOOTH):
         info = CLASSES[cls]
